@@ -2,7 +2,7 @@
 From Coq Require Import NArith Arith List Lia Bool.
 From BU Require Import Base.Exn Base.Radix Base.Bytes Model.BinStr Model.Bip39 Model.Bip39Spec
                        Gen.Bip39Consts Gen.WlBip39
-                       Lemmas.BinStr Lemmas.Bip39 Lemmas.Bip39Norm Lemmas.Bip39WlAux Lemmas.Bip39WordlistsOk Lemmas.Bip39Autodetect.
+                       Lemmas.BinStr Lemmas.Bip39 Lemmas.Bip39Norm Lemmas.Bip39WlAux Lemmas.Bip39WordlistsOk Lemmas.Bip39WlOverlap Lemmas.Bip39Autodetect.
 Import ListNotations.
 Open Scope N_scope.
 
